@@ -3,7 +3,7 @@
    and plan independence in one statement). *)
 Require Import KV.Sparql.Base KV.Sparql.Syntax KV.Sparql.MuProofs KV.Sparql.JoinProofs KV.Sparql.Algebra KV.Sparql.Engine
         KV.Sparql.PlanEquiv KV.Sparql.Sem KV.Sparql.ScanProofs KV.Sparql.HashProofs KV.Sparql.SemProofs KV.Sparql.ExecLemmas
-        KV.Sparql.GroupProofs.
+        KV.Sparql.IdemProofs KV.Sparql.GroupProofs.
 Require Import Lia Permutation.
 
 (* the incoming rows bind at most the variables of inb *)
@@ -13,6 +13,7 @@ Definition dom_in (inb : list var) (rows : list mu) : Prop :=
 Section Main.
   Variables (st : dataset) (ev : eview).
   Hypothesis ND : named_nodup ev.
+  Hypothesis SS : store_sets st.
 
   Lemma dom_in_join : forall inb l active inc inb0, ok_in inb0 l = true -> dom_in inb inc ->
     forall rows, rows ≡ₚ join inc (sem st ev active l) -> dom_in (inb ++ poss l) rows.
@@ -24,11 +25,11 @@ Section Main.
     destruct (lookup r x) eqn:E; [left; eapply D; eauto | right; eapply sem_poss; eauto].
   Qed.
 
-  Theorem exec_sem : forall l p, implementsb l p = true -> nodup_groups l = true ->
+  Theorem exec_sem : forall l p, implementsb l p = true ->
     forall inb active inc, ok_in inb l = true -> all_wf inc -> dom_in inb inc ->
     exec st ev active p inc ≡ₚ join inc (sem st ev active l).
   Proof.
-    induction l using lop_ind'; intros p IMP NG inb active inc OK W D.
+    induction l using lop_ind'; intros p IMP inb active inc OK W D.
     - (* Unit *)
       destruct p; try discriminate. rewrite exec_XUnit. cbn [sem]. rewrite join_unit_r. auto.
     - (* Scan *)
@@ -38,17 +39,16 @@ Section Main.
     - (* Union *)
       destruct p; try discriminate. rewrite exec_XUnion, sem_LUnion. unfold sem_union.
       eapply perm_trans; [|apply Permutation_sym; apply join_flat_map_r].
-      rewrite ok_in_LUnion in OK. cbn [implementsb] in IMP. cbn [nodup_groups] in NG.
-      revert bs0 IMP NG OK. induction H as [|b r Hb Hr IH]; intros ps IMP NG OK.
+      rewrite ok_in_LUnion in OK. cbn [implementsb] in IMP.
+      revert bs0 IMP OK. induction H as [|b r Hb Hr IH]; intros ps IMP OK.
       + destruct ps; [reflexivity | discriminate].
       + destruct ps as [|p ps]; [discriminate|].
         apply andb_true_iff in IMP. destruct IMP as [I1 I2].
-        apply andb_true_iff in NG. destruct NG as [N1 N2].
         cbn [forallb] in OK. apply andb_true_iff in OK. destruct OK as [O1 O2].
         cbn [flat_map]. apply Permutation_app; [eapply Hb; eauto | apply IH; auto].
     - (* Graph *)
       destruct p; try discriminate. cbn [implementsb] in IMP. apply andb_true_iff in IMP. destruct IMP as [Eg IMP].
-      apply gterm_eqb_eq in Eg. subst g0. cbn [nodup_groups] in NG. cbn [ok_in] in OK.
+      apply gterm_eqb_eq in Eg. subst g0. cbn [ok_in] in OK.
       destruct g as [|n|x].
       + rewrite exec_XGraph_default. cbn [sem]. eapply IHl; eauto.
       + rewrite exec_XGraph_named. cbn [sem].
@@ -84,7 +84,7 @@ Section Main.
           intros y w L. rewrite lookup_insert in L. destruct (N.eqb_spec x y); [left; auto | eauto].
     - (* Selection *)
       destruct p; try discriminate. cbn [implementsb] in IMP. apply andb_true_iff in IMP. destruct IMP as [Ec IMP].
-      apply expr_eqb_eq in Ec. subst c0. cbn [nodup_groups] in NG. cbn [ok_in] in OK.
+      apply expr_eqb_eq in Ec. subst c0. cbn [ok_in] in OK.
       apply andb_true_iff in OK. destruct OK as [OK1 OK2].
       rewrite exec_XFilter. cbn [sem].
       eapply perm_trans; [apply perm_filter; eapply IHl; eauto|].
@@ -96,7 +96,7 @@ Section Main.
       + right. destruct (lookup a x) eqn:E; auto. exfalso. apply negb_true_iff in Hn.
         assert (In x inb) by (eapply D; eauto). apply mem_var_in in H. congruence.
     - (* Join *)
-      cbn [implementsb] in IMP. cbn [nodup_groups] in NG.
+      cbn [implementsb] in IMP.
       destruct (scan_scope (LJoin l1 l2)) as [sc|] eqn:ES.
       + (* a same-scope scan group *)
         eapply perm_trans; [|apply join_perm_r; apply Permutation_sym; eapply sem_group; eauto].
@@ -105,10 +105,9 @@ Section Main.
           apply Permutation_sym. apply perm_b_perm. exact IMP.
         * destruct (star_plan p) as [[[v pats] rest]|] eqn:EP; [|discriminate].
           apply andb_true_iff in IMP. destruct IMP as [_ IMP].
-          eapply perm_trans; [eapply exec_star_plan; eauto|]. apply join_perm_r. apply bj_perm; auto.
-          eapply star_ok_perm; eauto.
-      + apply andb_true_iff in NG. destruct NG as [N1 N2].
-        cbn [ok_in] in OK. apply andb_true_iff in OK. destruct OK as [OK1 OK2].
+          eapply perm_trans; [eapply exec_star_plan; eauto|]. apply join_perm_r.
+          eapply star_ok_bj; eauto.
+      + cbn [ok_in] in OK. apply andb_true_iff in OK. destruct OK as [OK1 OK2].
         assert (Wsa : all_wf (sem st ev active l1)) by apply sem_wf.
         assert (Wsb : all_wf (sem st ev active l2)) by apply sem_wf.
         cbn [sem]. rewrite <- join_assoc by auto.
@@ -121,7 +120,7 @@ Section Main.
         { intros a' b' I1 I2.
           assert (PA : exec st ev active a' inc ≡ₚ join inc (sem st ev active l1)) by (eapply IHl1; eauto).
           assert (PB : exec st ev active b' [[]] ≡ₚ sem st ev active l2).
-          { rewrite <- (join_unit_l (sem st ev active l2)) by auto. eapply (IHl2 b' I2 N2 []); eauto.
+          { rewrite <- (join_unit_l (sem st ev active l2)) by auto. eapply (IHl2 b' I2 []); eauto.
             - eapply ok_in_nil; eauto.
             - constructor; [exact I | constructor].
             - intros a x w [Ha|[]] L. subst. discriminate. }
@@ -131,25 +130,25 @@ Section Main.
           - eapply all_wf_perm; [apply Permutation_sym; exact PB|]. auto. }
         destruct p; try discriminate; apply andb_true_iff in IMP; destruct IMP as [I1 I2];
           destruct (Common _ _ I1 I2) as (PA & WA & DA & PB & WB).
-        * rewrite exec_XBindJoin. eapply perm_trans; [eapply (IHl2 p2 I2 N2 (inb ++ poss l1)); eauto|].
+        * rewrite exec_XBindJoin. eapply perm_trans; [eapply (IHl2 p2 I2 (inb ++ poss l1)); eauto|].
           apply join_perm_l. exact PA.
         * rewrite exec_XHashJoin. eapply perm_trans; [apply hash_join_eq_nested; auto|].
           rewrite nl_join_eq_join. apply join_perm; auto.
         * rewrite exec_XNLJoin. rewrite nl_join_eq_join. apply join_perm; auto.
     - (* Subquery *)
       destruct p; try discriminate. cbn [implementsb] in IMP. apply andb_true_iff in IMP. destruct IMP as [Es IMP].
-      apply subspec_eqb_eq in Es. subst s0. cbn [nodup_groups] in NG. cbn [ok_in] in OK.
-      apply andb_true_iff in OK. destruct OK as [SS OK].
+      apply subspec_eqb_eq in Es. subst s0. cbn [ok_in] in OK.
+      apply andb_true_iff in OK. destruct OK as [SSub OK].
       rewrite exec_XSubquery. cbn [sem]. apply join_perm_r. apply simple_finalize_perm; auto.
       rewrite <- (join_unit_l (sem st ev active l)) by apply sem_wf.
-      eapply (IHl p IMP NG []); eauto.
+      eapply (IHl p IMP []); eauto.
       + constructor; [exact I | constructor].
       + intros a x w [Ha|[]] L. subst. discriminate.
     - (* Bind *)
       destruct p; try discriminate. cbn [implementsb] in IMP.
       apply andb_true_iff in IMP. destruct IMP as [IMP0 IMP]. apply andb_true_iff in IMP0. destruct IMP0 as [Ea Ev].
       apply (list_eqb_eq _ barg_eqb_eq) in Ea. apply N.eqb_eq in Ev. subst args0 v0.
-      cbn [nodup_groups] in NG. cbn [ok_in] in OK.
+      cbn [ok_in] in OK.
       apply andb_true_iff in OK. destruct OK as [OK0 OK3]. apply andb_true_iff in OK0. destruct OK0 as [OK1 OK2].
       rewrite exec_XBind. cbn [sem].
       eapply perm_trans; [apply Permutation_map; eapply IHl; eauto|].
